@@ -325,6 +325,32 @@ def DistinctAlong (S2F : List Char → Except PyErr Nat) (v : Variant) : Sys →
       | none => True
       | some (s1, o1) => DistinctAlong S2F v s1 (pre ++ o1) es
 
+/-! ### typed systems: host table and device agree, device values have the width of their type -/
+
+/-- every value the device holds for a parameter has the width of the parameter's type -/
+def DevWF (d : Dev) : Prop :=
+  ∀ (i : Nat) (dp : DevParam), d.params[i]? = some dp → ∀ w, devWidth dp.tcode = some w →
+    dp.value.length = w ∧ dp.dflt.length = w ∧ ∀ st, dp.stored = some st → st.length = w
+
+/-- the parameter is one of the ten numeric firmware types -/
+def numericCode (tc : Nat) : Prop := ∃ w, devWidth tc = some w ∧ 0 < w ∧ tc ≠ 5
+
+/-- every element of the host's table is known to the device under the same index (< 2^16) with the same numeric type -/
+def TocOK (toc : List Elem) (d : Dev) : Prop :=
+  ∀ el ∈ toc, el.ident < 65536 ∧ numericCode el.tcode ∧ ∃ dp, d.params[el.ident]? = some dp ∧ dp.tcode = el.tcode
+
+/-- firmware-side changes keep the width of the value, at every point of the run -/
+def TypedSetsAlong (S2F : List Char → Except PyErr Nat) (v : Variant) : Sys → List Ev → Prop
+  | _, [] => True
+  | s, e :: es =>
+    (∀ i raw n, e = Ev.devSet i raw n → ∀ dp, s.dev.params[i]? = some dp → devWidth dp.tcode = some raw.length) ∧
+      match s.step S2F v e with
+      | none => True
+      | some (s1, _) => TypedSetsAlong S2F v s1 es
+
+/-- the registered reply handlers (the leftovers of `get_default_value(<unknown name>)`, which can never fire, aside) -/
+def handlersOf (pending : List Pending) : List Pending := pending.filter (fun e => !e.noElem)
+
 /-- nothing queued, nothing outstanding, nothing in flight but notifications; host and device agree on the protocol -/
 structure Sys.Idle (s : Sys) : Prop where
   queue : s.host.queue = []
